@@ -64,7 +64,7 @@ def gen(seed, run, tier='quick'):
     gconvs = []
     for k in range(n_g):
         kind = rng.choice(['stub', 'stub', 'table', 'method', 'unhashable',
-                           'subtable'])
+                           'subtable', 'convsub'])
         table = {}
         for a in range(3):
             for b in range(3):
@@ -528,6 +528,25 @@ def execute(h):
                         return None
                     return super().__call__(qty, to_unit)
             gconvs.append(RangeTable(table_arg(tab, len(spec['table']) + k)))
+        elif spec['kind'] == 'convsub':
+            from quantity import Converter
+
+            class HookConverter(Converter):
+                """a Converter sub-class that overrides the factor hook
+                and leaves what it does not know to the base class"""
+                def __init__(self, table):
+                    self.rates = {key: _frac(e[1])
+                                  for key, e in table.items()
+                                  if e[0] == 'amt'}
+
+                def _get_factor(self, qty, to_unit):
+                    us = gunits if qty.unit in gunits else hunits
+                    f = self.rates.get(
+                        f"{us.index(qty.unit)}{us.index(to_unit)}")
+                    if f is None:
+                        return super()._get_factor(qty, to_unit)
+                    return qty.amount * f
+            gconvs.append(HookConverter(spec['table']))
         elif spec['kind'] == 'method':
             gconvs.append(_Method(Stub(k, spec['table'])))
         elif spec['kind'] == 'unhashable':
@@ -584,7 +603,8 @@ def execute(h):
             amt = gc(gq_sets[k][a], gunits[b])
         except _StubRaise:
             return ('raise',)
-        if amt is None:
+        if amt is None or amt is NotImplemented:
+            # no amount
             return ('none',)
         if isinstance(amt, float):
             from fractions import Fraction
